@@ -525,3 +525,43 @@ def rule_c06_r5(model: Model) -> RuleResult:
             else:
                 r.ok()
     return r
+
+
+def rule_c05_r7(model: Model) -> RuleResult:
+    """Writers write the value they are given: into_data neither rebinds its value nor passes it through a narrowing method."""
+    r = RuleResult('C05-R7', 'into_data writes the value it is given (or projections of it): the value is not rebound or passed through another '
+                             'method of the converter before it is written', floor=15)
+    for cls in family(model):
+        f = cls.methods.get('into_data')
+        if f is None or not isinstance(f.node, ast.FunctionDef) or len(f.params) < 2:
+            continue
+        r.instances += 1
+        r.analysed.add(f.qualname)
+        cfg = cfg_of(model, f)
+        nz = Normalizer(model, f, cfg)
+        vp = f.params[1]
+        problems: t.List[t.Tuple[ast.AST, str]] = []
+        for d in cfg.reaching().by_name.get(vp, []):
+            if d.kind == 'param':
+                continue
+            v = d.value
+            while isinstance(v, ast.Call) and model.resolve(v.func, f.module, f) == 'typing.cast' and len(v.args) == 2:
+                v = v.args[1]
+            if isinstance(v, ast.Name) and v.id == vp:
+                continue
+            problems.append((d.stmt or d.node.ast or f.node, f"{vp} is rebound to {unparse(v) if v is not None else '?'}"[:120]))
+        for n in cfg.live_nodes():
+            if n.kind == 'return' and n.ast is not None and n.ast.value is not None:
+                form = nz.expr(n.ast.value, n)
+                for m_ in re.finditer(r'self\.(\w+)\((?=[^()]*\bVAL\b)', form):
+                    if 'into_data' not in m_.group(1):
+                        problems.append((n.ast, f"self.{m_.group(1)}(VAL) is written instead of VAL"))
+        r.sample({'class': cls.name, 'problems': [p_[1] for p_ in problems]})
+        if problems:
+            for (node, what) in problems:
+                r.fail(f.qualname, what, f.loc(node),
+                       "the data written is not the value's own representation: e.g. a datetime held under Union[date, datetime] is cut down to its "
+                       "date part, and reading the output back gives a different value")
+        else:
+            r.ok()
+    return r
